@@ -100,7 +100,8 @@ def cases(tier, seed):
 
 def chunklens(n, with_none):
     cl = sorted({1, 2, max(1, n - 1), max(1, n), n + 3})
-    return cl + ([None] if with_none else [])
+    # ... and the same number spelled as a NumPy scalar of a narrow type (chunk boundaries must not wrap)
+    return cl + [np.uint8(2), np.int8(3)] + ([None] if with_none else [])
 
 
 def pick_dtypearg(rng, case, src_dtype):
@@ -302,7 +303,7 @@ def run_create(case, env, res, d, rng):
         ref[:] = ff(grid)
     shp = shape[0] if case['shape_as_int'] else shape
     n = shape[0]
-    cls = sorted({1, 2, 3, max(1, n), n + 1}) + ([None] if case['none_chunklen'] else [])
+    cls = sorted({1, 2, 3, max(1, n), n + 1}) + [np.uint8(2), np.int8(3)] + ([None] if case['none_chunklen'] else [])
     res.dim('fill', ffname or f'value:{fill!r}')
     res.dim('dtype', f"{case['numtype']}/{case['bo']}")
     for ci, cl in enumerate(cls):
